@@ -19,15 +19,21 @@ import json
 import os
 import random
 import re
+import shutil
 import subprocess
 import time
+
+import sys
 
 import lib
 from lib import Case, log
 
+sys.path.insert(0, os.path.join(lib.VERIF, "gen"))
+import c15_defs  # noqa: E402
+
 PROP = "C15"
 DRIVER = "drv-c15"
-PROOF_MODULES = ["TetlProofs.C15.Props"]
+PROOF_MODULES = ["TetlProofs.C15.Props", "TetlProofs.C15.PropsGen"]
 HARNESS = "harness/c15.cpp"
 SOURCES = ["include/etl/_type_traits", "include/etl/_concepts", "include/etl/_limits/numeric_limits.hpp",
            "include/etl/_ratio", "include/etl/_meta", "include/etl/_numeric/gcd.hpp", "include/etl/_math/abs.hpp",
@@ -35,10 +41,15 @@ SOURCES = ["include/etl/_type_traits", "include/etl/_concepts", "include/etl/_li
 CXXSTD = ["-std=c++2b", "-O0", "-w"]
 
 RULE = ("(c) every type of the Lean-enumerated zoo of depth 0 (31 base types x 4 cv; eight enumerations with underlying types of 1, 2, 4 and 8 bytes) and a seeded sample (thorough: all) of "
-        "depths 1-2 plus a sample of depth 3 and random deeper terms: 55 structural traits/concepts per type; is_same/same_as "
-        "over all ordered pairs of a near-miss list; (d) 60 intrinsic-backed traits/concepts over a 50-class zoo, its cv/ref/"
-        "pointer/array variants and a zoo sample, 22 relational traits/concepts + common_type/common_reference/invoke_result "
-        "over all ordered pairs of a relation list; (b) all 32 numeric_limits members x 19 arithmetic types x 4 cv; "
+        "depths 1-2 plus a sample of depth 3 and random deeper terms: 55 structural traits/concepts per type, each trait in "
+        "both forms (X_v<T> / X_t<T> and the class template X<T>::value / ::type); is_same/same_as "
+        "over all ordered pairs of a near-miss list; where model and spec call make_signed/make_unsigned ill-formed a seeded "
+        "sample of etl::make_(un)signed<T>::type is compiled alone and must be rejected; (d) 60 intrinsic-backed "
+        "traits/concepts (the traits in both forms) over a 50-class zoo, its cv/ref/"
+        "pointer/array variants and a zoo sample, 22 relational traits/concepts + common_type of 1, 2 and 3 types/common_reference/invoke_result "
+        "over all ordered pairs of a relation list; the definitions of all traits are re-extracted from the preprocessed headers "
+        "(g++ and clang++ branches) and the table theorems re-checked; a seeded sample of 240 (thorough: 1200) trait and limits rows is "
+        "compiled a second time with clang++, which takes the other #if branch of eight traits; (b) all 32 numeric_limits members x 19 arithmetic types x 4 cv; "
         "(a) ratio<n,d> over a small grid and near-overflow values, the four arithmetic aliases and six comparisons over "
         "all ordered pairs of a small ratio list, seeded near-overflow pairs and six targeted families (common denominator with a "
         "cancelling numerator, Bezout-type cancellation n1/a - n2/b = 1/(ab) with products near 2^93, large integer parts of "
@@ -50,18 +61,27 @@ RULE = ("(c) every type of the Lean-enumerated zoo of depth 0 (31 base types x 4
 ASSUMPTIONS = ["libstdc++ 12 <type_traits>, <concepts>, <limits>, <ratio> are the reference (R2 validates the Lean spec against them)",
                "x86-64 Linux data model (LP64; char and wchar_t signed) for sizes, signedness and underlying types",
                "compiler intrinsics (__is_class, __is_enum, __is_union, __underlying_type, __is_trivially_*, ...) implement "
-               "their documented meaning; part (d) has no model and is differential testing only"]
+               "their documented meaning: for part (d) the theorems say WHICH builtin is asked WHAT (tie), the answer of the "
+               "builtin is compared with libstdc++ (differential testing), it has no model"]
 TRUSTED = ["hand model Tetl/C15/Model.lean tied to the source by the compile-time correspondence matrix (R1) on every run",
            "spec Tetl/C15/Spec.lean validated against libstdc++ (R2) on every run",
-           "type encoder `Enc` of harness/c15.cpp (partial specialisations independent of etl and std)"]
+           "type encoder `Enc` of harness/c15.cpp (partial specialisations independent of etl and std)",
+           "extractors gen/c15_defs.py (trait definitions) and gen/c15_limits.py (numeric_limits members) over the headers as "
+           "preprocessed by the compiler under test: tokeniser + recursive descent; what they do not understand becomes an "
+           "`opaque` node, which no theorem accepts"]
 
 # ------------------------------------------------------------------ manifest text
 CLAIMED = True
 TECHNIQUE = ("Three parts are Lean 4 proofs about a hand model that is tied to the source by a compile-time matrix on every "
-             "run: (a) <ratio>, (b) numeric_limits of the integer types, (c) the structural traits/concepts over a C++ type "
-             "grammar (incl. make_signed/make_unsigned/underlying_type).  One part is NOT a proof: (d) about 80 intrinsic-"
-             "backed class traits, relational traits and concepts, common_type/common_reference/invoke_result, the floating-"
-             "point numeric_limits and the logical traits are a differential etl-vs-libstdc++ matrix only")
+             "run: (a) <ratio>, (b) numeric_limits of the integer types - here additionally the members AS THE HEADER SPELLS "
+             "THEM are extracted from the preprocessed header on every run and evaluated by a small C-expression semantics -, "
+             "(c) the structural traits/concepts over a C++ type grammar (incl. make_signed/make_unsigned/underlying_type).  "
+             "Part (d) - about 80 intrinsic-backed class traits, relational traits and concepts, common_type/common_reference/"
+             "invoke_result - is tied + observed: the DEFINITION of every trait (which builtin with which arguments, the formula "
+             "of a composite trait, the argument pattern of the copy/move families, agreement of the _v and the class-template "
+             "form) is extracted from the preprocessed headers on every run and proved to be the prescribed one by decide over "
+             "the generated table; the ANSWER of the compiler builtins is a differential etl-vs-libstdc++ matrix only, as are the "
+             "floating-point numeric_limits and the logical traits")
 LEVEL_TEXT = ("PROVED in Lean 4 for all inputs (coverage.theorems): (c) each of 47 structural traits/concepts, as tetl computes "
               "it (partial specialisations, SFINAE helpers, the not-const-qualifiable test of is_function, the portable "
               "branches of is_scalar/is_object), equals the standard's definition for every well-formed type of a grammar with "
@@ -70,40 +90,76 @@ LEVEL_TEXT = ("PROVED in Lean 4 for all inputs (coverage.theorems): (c) each of 
               "category, reference collapsing, remove_cvref = remove_cv after remove_reference); make_signed/make_unsigned "
               "name the type of [meta.trans.sign] (corresponding type; smallest rank of equal size for enumerations and "
               "character types; cv kept) and are ill-formed for the same types, underlying_type is the fixed underlying type; "
-              "(b) the integer numeric_limits members equal 2^digits-1, -2^digits, and digits*3/10 = floor(digits*log10 2) for "
-              "every width below 103 bits; (a) ratio, after three fix: commits, against Mathlib's rational numbers Q: "
+              "for the 18 traits/concepts that are formulas over other traits (is_arithmetic, is_fundamental, is_compound, "
+              "is_scalar, is_object, is_function, is_void, is_integral ..., signed_integral ...) the formula EXTRACTED from the "
+              "header, in both forms, evaluates to the hand model for every type (composite_formulas); "
+              "(b) numeric_limits<integer>: is_signed, digits, digits10, min, max, lowest, is_modulo AS SPELLED in the header "
+              "(<climits> macros as the preprocessor expands them, literals, casts, the shift expression of "
+              "detail::integer_numeric_limits with integral promotion) evaluate without undefined behaviour to 2^digits-1, "
+              "-2^digits / 0, floor(digits*log10 2) ... for each of the 16 integer types, the template for every width "
+              "8/16/32/64 and both signednesses, and equal the hand model member by member (traps included); digits*3/10 = "
+              "floor(digits*log10 2) for every width below 103 bits; (a) ratio, after three fix: commits, against Mathlib's "
+              "rational numbers Q: "
               "ratio<n,d> is n/d in lowest terms with a positive denominator for all admissible template arguments and ill-formed "
               "for the others (zero denominator, INTMAX_MIN); ratio_add/subtract/multiply/divide are the canonical "
               "specialisation of the exact sum/difference/product/quotient in Q exactly when numerator and denominator of "
               "that number fit intmax_t - no intermediate of the gcd-first products, of detail::ratio_add_impl or of "
               "detail::ratio_less_impl overflows - and ill-formed otherwise (or when the divisor is zero); ratio_equal/"
               "not_equal/less/less_equal/greater/greater_equal are =, !=, <, <=, >, >= of Q for all operands (the "
-              "continued-fraction loop terminates within den+1 iterations).  TIED TO THE SOURCE on every run by a generated "
+              "continued-fraction loop terminates within den+1 iterations).  (d) TIED, by decide over the table of definitions "
+              "extracted from the preprocessed headers on every run: each of 19 intrinsic-backed traits (is_trivial, "
+              "is_trivially_copyable, is_standard_layout, is_empty, is_polymorphic, is_abstract, is_final, is_aggregate, "
+              "has_virtual_destructor, has_unique_object_representations, is_(trivially_|nothrow_)constructible, "
+              "is_(trivially_)assignable, is_trivially_destructible, is_enum/is_class/is_union) is, in both forms, the builtin "
+              "of its own name applied to all its template arguments - except is_trivially_constructible, which drops Args... "
+              "(known finding; _partial + _counterexample) -, the same for the clang-only #if branches (also executed on a sample: the harness is compiled a second time with clang++), no other builtin is "
+              "called anywhere, every _v variable agrees with its class template, and the 17 default/copy/move/swappable "
+              "family members pass exactly the argument types [meta.unary.prop] names for every well-formed type.  TIED TO THE "
+              "SOURCE on every run by a generated "
               "compile-time matrix (etl = model, std = spec, etl = spec) over a Lean-enumerated zoo of 1.5e3 (quick) / 1e4 "
-              "(thorough) types, all arithmetic types and a ratio grid incl. near-overflow values and targeted families; "
-              "instantiations that model and spec call ill-formed are compiled alone on a sample and must be rejected.  "
-              "NOT PROVED, differential matrix against libstdc++ only (coverage.unproved_observed): about 80 intrinsic-"
-              "backed class traits and relational traits/concepts over a class zoo, floating-point numeric_limits, "
-              "conjunction/disjunction/negation.")
+              "(thorough) types - every trait in both forms -, all arithmetic types and a ratio grid incl. near-overflow values "
+              "and targeted families; "
+              "instantiations that model and spec call ill-formed (ratio, make_signed/make_unsigned) are compiled alone on a "
+              "sample and must be rejected.  "
+              "NOT PROVED, differential matrix against libstdc++ only (coverage.unproved_observed): the VALUE of the about 80 "
+              "intrinsic-backed class traits and relational traits/concepts over a class zoo (what the compiler builtins and "
+              "the SFINAE probes answer), floating-point numeric_limits, conjunction/disjunction/negation.")
 LEVEL_NOTE = ("Trusted: Lean kernel + propext/Classical.choice/Quot.sound; fidelity of the hand model outside the explored "
-              "types; g++ 12 front end and intrinsics; libstdc++ as oracle.  Part (d) (coverage.unproved_observed) is "
-              "differential testing, not proof.  Floating-point numeric_limits members are compared with std only.  The "
-              "integer numeric_limits min/max/lowest are modelled as closed forms of (bits, signedness); the header's "
-              "*_MAX macros and shift expressions are tied to them by the matrix over every arithmetic type only.")
-CORRESPONDENCE_ONLY = ["add_cv, integer numeric_limits::digits10 of the literal specialisations beyond 8-bit bytes",
+              "types; the extractors gen/c15_defs.py / gen/c15_limits.py; g++ 12 front end and intrinsics; libstdc++ as "
+              "oracle.  Part (d) (coverage.unproved_observed): the theorems pin the definitions (which builtin, which "
+              "arguments, which formula), not the answers - those are differential testing, not proof; traits defined by "
+              "SFINAE probes or partial specialisations the extractor does not read (is_convertible, is_base_of, "
+              "is_destructible, is_nothrow_*, is_swappable_with, invoke_result, common_type, the concepts with "
+              "requires-expressions) are observed only.  The clang++ #if branches are tied for every trait and executed on a seeded sample of rows only.  "
+              "Floating-point numeric_limits members are compared with std only; of the integer members is_specialized, "
+              "is_integer, is_exact, radix, is_bounded and the zero-valued floating-point members are compared only.  "
+              "numeric_limits<bool>::traps differs from libstdc++ (known finding, implementation-defined member).")
+CORRESPONDENCE_ONLY = ["add_cv",
+                       "the 14 traits defined by partial specialisation (is_const, is_volatile, is_reference, is_lvalue_reference, "
+                       "is_rvalue_reference, is_array, is_bounded_array, is_unbounded_array, is_pointer, is_member_pointer, "
+                       "is_member_function_pointer, is_signed, is_unsigned, is_scoped_enum) and the type transformations: the "
+                       "specialisation patterns are hand-modelled, not extracted (their _v forms and the remove_cv_t wrapping of "
+                       "the helpers are: forwarding_vars, helper_traits_strip_cv)",
                        "numeric_limits<floating-point>::* (compared with std only)",
-                       "numeric_limits<integer>: is_specialized, is_integer, is_exact, radix, is_bounded, traps, the "
-                       "zero-valued floating-point members, and min/max/lowest as the header spells them (macros, shifts)",
+                       "numeric_limits<integer>: is_specialized, is_integer, is_exact, radix, is_bounded and the "
+                       "zero-valued floating-point members (compared with std and with constants of the driver only)",
                        "conjunction, disjunction, negation, integral_constant (fixed row, etl vs std)"]
 UNPROVED_OBSERVED = [
+    "VALUES (the definitions are tied by theorems over the extracted table; what the builtin answers is compared with std only): "
     "is_trivial", "is_trivially_copyable", "is_standard_layout", "is_empty", "is_polymorphic", "is_abstract", "is_final",
-    "is_aggregate", "has_virtual_destructor", "has_unique_object_representations", "alignment_of",
-    "is_(trivially_|nothrow_)?(default_|copy_|move_)?constructible", "is_(trivially_|nothrow_)?(copy_|move_)?assignable",
-    "is_(trivially_|nothrow_)?destructible", "is_(nothrow_)?swappable(_with)?", "is_(nothrow_)?convertible", "is_base_of",
-    "is_invocable", "invoke_result", "common_type", "common_reference",
+    "is_aggregate", "has_virtual_destructor", "has_unique_object_representations",
+    "is_(trivially_|nothrow_)?(default_|copy_|move_)?constructible", "is_(trivially_)?(copy_|move_)?assignable",
+    "is_trivially_destructible",
+    "DEFINITION NOT EXTRACTED (SFINAE probes, noexcept / requires-expressions, partial specialisations), compared with std only: "
+    "alignment_of", "is_nothrow_(copy_|move_)?assignable", "is_(nothrow_)?destructible", "is_(nothrow_)?swappable(_with)?",
+    "is_(nothrow_)?convertible", "is_base_of",
+    "is_invocable", "invoke_result", "common_type (1, 2 and 3 arguments)", "common_reference",
     "concepts: destructible, default_initializable, move_constructible, copy_constructible, movable, copyable, semiregular, "
     "regular, equality_comparable, swappable, convertible_to, derived_from, assignable_from, constructible_from, common_with, "
-    "common_reference_with, invocable"]
+    "common_reference_with, invocable",
+    "never instantiated by the matrix: aligned_storage, aligned_union, conditional, enable_if, void_t, is_invocable_r, "
+    "unwrap_reference, unwrap_ref_decay, the concepts predicate, relation, equivalence_relation, strict_weak_order, "
+    "regular_invocable, boolean_testable, the typedefs of _cstdint/_cstddef, incomplete class types"]
 THEOREMS = {
     "rn": ["Tetl.C15.Props.mkRatio_rat", "Tetl.C15.Props.mkRatio_eq", "Tetl.C15.Props.mkRatio_illformed",
            "Tetl.C15.Props.mkRatio_valid", "Tetl.C15.Props.valid_num_den", "Tetl.C15.Props.reduce_lowest_terms",
@@ -114,13 +170,22 @@ THEOREMS = {
            "Tetl.C15.Props.ratioGreaterEqual_rat", "Tetl.C15.Props.ratioAdd_eq", "Tetl.C15.Props.ratioAdd_illformed",
            "Tetl.C15.Props.ratioSub_eq", "Tetl.C15.Props.ratioSub_illformed", "Tetl.C15.Props.ratioMul_eq",
            "Tetl.C15.Props.ratioMul_illformed", "Tetl.C15.Props.ratioDiv_eq", "Tetl.C15.Props.ratioDiv_illformed"],
-    "lim": ["Tetl.C15.Props.intLimits_eq", "Tetl.C15.Props.intLimits_char_eq", "Tetl.C15.Props.intLimits_bool_char8",
-            "Tetl.C15.Props.digits10_eq_floor_log", "Tetl.C15.Props.digits10_eq_spec"],
+    "lim": ["Tetl.C15.Props.limits_spelled_members_eq", "Tetl.C15.Props.limits_template_eq", "Tetl.C15.Props.limits_model_eq_spelled",
+            "Tetl.C15.Props.limits_table_complete", "Tetl.C15.Props.limits_shifts_representable",
+            "Tetl.C15.Props.intLimits_eq", "Tetl.C15.Props.intLimits_char_eq", "Tetl.C15.Props.intLimits_bool_char8",
+            "Tetl.C15.Props.intLimits_traps_partial", "Tetl.C15.Props.digits10_eq_floor_log", "Tetl.C15.Props.digits10_eq_spec"],
+    "d": ["Tetl.C15.Props.intrinsic_traits_forward_partial", "Tetl.C15.Props.single_builtin_same_name_partial",
+          "Tetl.C15.Props.builtin_inventory_complete", "Tetl.C15.Props.var_and_struct_forms_agree",
+          "Tetl.C15.Props.copy_move_families", "Tetl.C15.Props.intrinsic_traits_forward_clang"],
+    "db": ["Tetl.C15.Props.intrinsic_traits_forward_partial", "Tetl.C15.Props.single_builtin_same_name_partial",
+           "Tetl.C15.Props.var_and_struct_forms_agree"],
     "ut": ["Tetl.C15.Props.exactly_one_primary_category", "Tetl.C15.Props.isFunction_eq", "Tetl.C15.Props.removeCv_eq",
            "Tetl.C15.Props.decay_eq", "Tetl.C15.Props.addPointer_eq", "Tetl.C15.Props.addLvalueReference_eq",
            "Tetl.C15.Props.addRvalueReference_eq", "Tetl.C15.Props.reference_collapsing", "Tetl.C15.Props.isObject_eq",
            "Tetl.C15.Props.isCompound_eq", "Tetl.C15.Props.rank_eq", "Tetl.C15.Props.extent_eq",
-           "Tetl.C15.Props.makeSigned_eq", "Tetl.C15.Props.makeUnsigned_eq", "Tetl.C15.Props.underlyingType_eq"],
+           "Tetl.C15.Props.makeSigned_eq", "Tetl.C15.Props.makeUnsigned_eq", "Tetl.C15.Props.underlyingType_eq",
+           "Tetl.C15.Props.composite_formulas", "Tetl.C15.Props.forwarding_vars", "Tetl.C15.Props.helper_traits_strip_cv",
+           "Tetl.C15.Props.var_and_struct_forms_agree"],
     "bt": ["Tetl.C15.Props.isSame_iff", "Tetl.C15.Props.sameAs_eq"],
 }
 
@@ -131,7 +196,7 @@ CLASS_ZOO = ["Cls", "Uni", "EU", "EUF", "ES", "ESC", "ESS", "EUS", "EL", "EULL",
              "AbstractProtDtor", "PrivateDtor", "Base", "Derived", "DerivedPriv", "DerivedVirt", "PolyFinal", "NonStdLayout",
              "Padded", "WithRef", "WithConst", "ConvToInt", "ConvToIntThrow", "ExplicitConv", "FromCls", "Callable",
              "CallableRef", "EqComparable", "Assignable", "CopyAssignConstOnly", "Swappable", "UnionNonTrivial", "BitField",
-             "Lambdaish"]
+             "Lambdaish", "CopyNonConstNothrow", "MoveCtorOnlyNothrowAssignThrows"]
 ARITH = ["bool", "char", "schar", "uchar", "wchar", "char8", "char16", "char32", "short", "ushort", "int", "uint", "long",
          "ulong", "llong", "ullong", "float", "double", "ldouble"]
 CPP_OF = {"wchar": "wchar_t", "char8": "char8_t", "char16": "char16_t", "char32": "char32_t", "nullptr": "nullptr_t"}
@@ -381,7 +446,10 @@ def ra_intermediates(line, op):
 
 
 def classify_item(line, key, impl, spec, row=None):
-    """Known-finding id for a failing item of a case line, or None.  `row` = all impl items of the line."""
+    """Known-finding id for a failing item of a case line, or None.  `row` = all impl items of the line.
+    `X::value` (the class-template form) is classified like `X` (the `_v` form), against the same form of the row."""
+    form = "::value" if key.endswith("::value") else ""
+    key = base_key(key)
     if line.startswith("db "):
         # common_reference<T, U> is only defined for identical T and U; the concepts built on it inherit the gap
         if key in ("common_reference_with", "common_with") and impl == "0":
@@ -391,19 +459,36 @@ def classify_item(line, key, impl, spec, row=None):
         if key == "assignable_from" and impl == "1" and spec == "0":
             return "F-C15-common-reference-unimplemented"
         if key == "is_trivially_constructible":
-            return "F-C15-is-trivially-constructible-ignores-args"
+            # the defect: T2 is ignored, the answer is is_trivially_default_constructible<T1>; any other wrong answer is new
+            dflt = (row or {}).get("is_trivially_default_constructible<T1>")
+            if dflt is not None and impl == dflt:
+                return "F-C15-is-trivially-constructible-ignores-args"
+            return None
         return None
     if line.startswith("d "):
         if key == "swappable" and impl == "1" and spec == "0":
             return "F-C15-swappable-is-not-ranges-swap"
         if key.startswith("is_trivially_constructible<") or key in ("is_trivially_copy_constructible", "is_trivially_move_constructible"):
             # the defect: Args are ignored, the answer is is_trivially_default_constructible<T>; any other wrong answer is new
-            dflt = (row or {}).get("is_trivially_default_constructible")
+            dflt = (row or {}).get("is_trivially_default_constructible" + form)
             if dflt is None or impl == dflt:
                 return "F-C15-is-trivially-constructible-ignores-args"
             return None
         return None
-    return None            # part (a), (b), (c): no known finding (the three ratio findings are fixed)
+    if line.startswith("lim "):
+        kv = dict(t.split("=", 1) for t in line.split(" ")[1:])
+        if kv.get("t") == "bool" and key == "traps" and impl == "0" and spec == "1":
+            return "F-C15-limits-bool-traps"          # implementation-defined member; libstdc++ 1, etl (libc++, MSVC) 0
+        return None
+    return None            # part (a), (c): no known finding (the three ratio findings are fixed)
+
+
+def base_key(k):
+    """`X::value` / `X::type` are the class-template forms of item `X`: same model, same spec"""
+    for suf in ("::value", "::type"):
+        if k.endswith(suf):
+            return k[:-len(suf)]
+    return k
 
 
 def classify(case, k, row):            # interface of the standard flow (unused by run())
@@ -424,10 +509,10 @@ def parse_items(s):
 
 
 class Item:
-    __slots__ = ("case", "impl", "std", "model", "spec", "call", "skip")
+    __slots__ = ("case", "impl", "std", "model", "spec", "call", "skip", "cc")
 
     def __init__(self, case):
-        self.case, self.call, self.skip = case, None, False
+        self.case, self.call, self.skip, self.cc = case, None, False, ""
         self.impl = self.std = self.model = self.spec = ""
 
 
@@ -515,8 +600,9 @@ def make_items(ctx, cases):
 ERR_RE = re.compile(r"^(\S+?):(\d+):\d+:\s+(required from here|error: .*)$")
 
 
-def compile_part(ctx, part_no, rows, items, repo):
+def compile_part(ctx, part_no, rows, items, repo, cxx=None):
     """Compile and run one part.  Returns (outputs {idx: (impl, std)}, broken [(idx, error text)]), or raises."""
+    cxx = cxx or lib.CXX
     inc = os.path.join(lib.BUILD, "c15_%s_p%d.inc" % (ctx.run_id, part_no))
     exe = os.path.join(lib.BUILD, "c15_%s_p%d" % (ctx.run_id, part_no))
     broken = []
@@ -524,7 +610,7 @@ def compile_part(ctx, part_no, rows, items, repo):
     for _attempt in range(6):
         with open(inc, "w") as f:
             f.write("\n".join(items[i].call for i in rows) + "\n")
-        cmd = [lib.CXX] + CXXSTD + ["-I", os.path.join(repo, "include"), "-DC15_INC=\"%s\"" % inc,
+        cmd = [cxx] + CXXSTD + ["-I", os.path.join(repo, "include"), "-DC15_INC=\"%s\"" % inc,
                                     os.path.join(lib.VERIF, HARNESS), "-o", exe]
         rc, o, e = lib.sh(cmd, timeout=1800)
         if rc == 0:
@@ -560,6 +646,28 @@ def compile_part(ctx, part_no, rows, items, repo):
             raise lib.MachineryError("harness printed a malformed row: %r" % ln[:200])
         outs[int(cols[0])] = (cols[1].strip(), cols[2].strip())
     return outs, broken
+
+
+def regenerate_limits(repo):
+    """GenLimits.lean: numeric_limits<integer> members as the header spells them (gen/c15_limits.py)"""
+    try:
+        import c15_limits
+    except ImportError:
+        return None
+    info = c15_limits.generate(repo, os.path.join(lib.LEAN, "Tetl", "C15", "GenLimits.lean"), cxx=lib.CXX)
+    return {k: info.get(k) for k in ("hash", "changed", "entries", "opaque", "errors", "translator")}
+
+
+def probe_make_sign(ctx, cpp_type, which, repo):
+    """Observe that `etl::make_signed<T>::type` / `make_unsigned` is rejected where model and spec say ill-formed: the
+    harness (with the zoo's type aliases) is parsed with a one-line body.  Returns True when it does not compile."""
+    inc = os.path.join(lib.BUILD, "c15_%s_ms_%d.inc" % (ctx.run_id, abs(hash((cpp_type, which))) % 10 ** 8))
+    with open(inc, "w") as f:
+        f.write("{ using probe_t = typename etl::%s<%s>::type; static_assert(sizeof(probe_t*) > 0); }\n" % (which, cpp_type))
+    rc, _, _ = lib.sh([lib.CXX] + CXXSTD + ["-fsyntax-only", "-I", os.path.join(repo, "include"), "-DC15_INC=\"%s\"" % inc,
+                                            os.path.join(lib.VERIF, HARNESS)], timeout=600)
+    os.unlink(inc)
+    return rc != 0
 
 
 def probe_illformed(ctx, line, op, repo):
@@ -603,7 +711,7 @@ def evaluate_items(items):
             continue
         for k in I:
             i, s = I[k], S[k]
-            m, p = M.get(k), P.get(k)
+            m, p = M.get(base_key(k)), P.get(base_key(k))
             if p is not None and not lib.eq(p, s):
                 fails.append((it, k, "R2", i, s, m, p))
                 continue
@@ -626,6 +734,14 @@ def run(ctx, replay=None):
     hits = lib.lean_source_scan([os.path.join(lib.LEAN, "Tetl"), os.path.join(lib.LEAN, "TetlProofs")])
     if hits:
         log("MACHINERY-ERROR forbidden construct in Lean sources:\n  " + "\n  ".join(hits[:10]))
+        return 2
+    # tie of part (d): the definitions of the traits are re-extracted from the headers of the tree under test
+    try:
+        gen_info = c15_defs.generate(repo, os.path.join(lib.LEAN, "Tetl", "C15", "GenBuiltins.lean"), cxx=lib.CXX)
+        gen_info["opaque"] = len(gen_info["opaque"])
+        gen_info["limits"] = regenerate_limits(repo)
+    except Exception as e:      # noqa: BLE001
+        log("MACHINERY-ERROR extraction of the trait definitions failed: %s" % str(e)[:400])
         return 2
     ok, out = lib.lake_build([DRIVER])
     if not ok:
@@ -684,6 +800,38 @@ def run(ctx, replay=None):
 
     fails = evaluate_items(items)
 
+    # clang leg: eight traits take another `#if` branch under clang++ (__is_integral, __is_member_pointer, __is_scalar,
+    # __is_object, __is_trivially_destructible, ...).  A seeded sample of the trait and limits rows is compiled a second
+    # time with clang++ (against the same libstdc++) and compared in the same way.  The leg is an extra: when clang++ is
+    # missing or chokes on something outside etl it is recorded in the notes, never a machinery error.
+    clang = shutil.which("clang++-16") or shutil.which("clang++")
+    clang_info = {"compiler": clang, "rows": 0}
+    if clang:
+        pool = [i for i in live if i not in {b[0] for b in broken_rows}
+                and items[i].case.lines[0].split(" ")[0] in ("ut", "bt", "d", "db", "lim", "misc")]
+        pick_c = pool if replay else random.Random(ctx.seed + 7).sample(pool, min(len(pool), 240 if ctx.tier == "quick" else 1200))
+        try:
+            n_c = max(1, min(lib.NPROC, len(pick_c) // 60 + 1))
+            with cf.ThreadPoolExecutor(max_workers=lib.NPROC) as ex:
+                futs = [ex.submit(compile_part, ctx, 900 + k, pick_c[k::n_c], items, repo, clang) for k in range(n_c)]
+                res = [f.result() for f in futs]
+            citems = []
+            for outs_c, broken_c in res:
+                for idx, (i_, s_) in outs_c.items():
+                    c = Item(items[idx].case)
+                    c.call, c.model, c.spec, c.impl, c.std, c.cc = items[idx].call, items[idx].model, items[idx].spec, i_, s_, "clang++"
+                    citems.append(c)
+                for idx, err, etl_side in broken_c:
+                    if etl_side:
+                        broken_rows.append((idx, "[compiled by clang++] " + err, True))
+                    else:
+                        ctx.notes.append("clang leg: row dropped (error outside etl): %s" % items[idx].case.lines[0])
+            clang_info["rows"] = len(citems)
+            fails += evaluate_items(citems)
+        except (lib.MachineryError, subprocess.SubprocessError, OSError) as e:
+            ctx.notes.append("clang leg not run: %s" % str(e)[:300])
+            clang_info["error"] = str(e)[:300]
+
     # negative probes: where model and spec agree on "ill-formed" the harness does not instantiate the alias (it could not
     # compile); observe on a sample, each in a translation unit of its own, that tetl really rejects the instantiation
     cand = []
@@ -696,6 +844,16 @@ def run(ctx, replay=None):
             for op in ("add", "subtract", "multiply", "divide"):
                 if M_.get(op) == "ill-formed" and P_.get(op) == "ill-formed":
                     cand.append((ln, op))
+    ms_cand = []
+    for it in items:
+        ln = it.case.lines[0]
+        if ln.startswith("ut ") and not it.skip and it.call is not None:
+            M_, P_ = parse_items(it.model), parse_items(it.spec)
+            for which in ("make_signed", "make_unsigned"):
+                if M_.get(which) == "ill-formed" and P_.get(which) == "ill-formed":
+                    ms_cand.append((ln, which, it.call.split("<", 1)[1].rsplit(",", 2)[0]))
+    random.Random(ctx.seed + 1).shuffle(ms_cand)
+    ms_cand = ms_cand[:8 if ctx.tier == "quick" else 40]
     cand = list(dict.fromkeys(cand))
     budget = 32 if ctx.tier == "quick" else 160
     head_n = min(len(cand), 10)                 # the witnesses of the fixed findings and the ill-formed `rn` rows come first
@@ -708,7 +866,10 @@ def run(ctx, replay=None):
     probed = {}
     with cf.ThreadPoolExecutor(max_workers=lib.NPROC) as ex:
         futs = {k: ex.submit(probe_illformed, ctx, k[0], k[1], repo) for k in pick}
+        futs_ms = {(ln, which): ex.submit(probe_make_sign, ctx, cpp, which, repo) for (ln, which, cpp) in ms_cand}
         for k, f in futs.items():
+            probed[k] = f.result()
+        for k, f in futs_ms.items():
             probed[k] = f.result()
     accepted = [k for k, v in probed.items() if not v]
 
@@ -774,12 +935,12 @@ def run(ctx, replay=None):
                        "spec": "%s=%s" % (key, p), "std": "%s=%s" % (key, s),
                        "theorems": THEOREMS.get(ln.split(" ")[0], []), "lean_error": proof_broken,
                        "source": lib.source_hashes(SOURCES), "failing_input_found": kind == "R3"}, found=(kind == "R3"))
-        log("  %s: %s  impl=%s model=%s spec=%s std=%s" % (ln, key, i, m, p, s))
+        log("  %s: %s  impl=%s model=%s spec=%s std=%s%s" % (ln, key, i, m, p, s, "   [harness compiled by clang++]" if it.cc else ""))
     for n_acc, (ln, op) in enumerate(accepted):
         if n_acc >= 3:
             log("  (%d further ill-formed instantiations accepted)" % (len(accepted) - 3))
             break
-        what = "ratio<n, d>" if op == "rn" else "ratio_" + op
+        what = "ratio<n, d>" if op == "rn" else ("etl::" + op + "<T>::type") if op.startswith("make_") else "ratio_" + op
         ctx.violation({"kind": "impl_violates_property", "cases": [ln], "failing_line": 0, "item": op,
                        "impl": "%s: well-formed (the instantiation compiles)" % what, "model": "%s=ill-formed" % op,
                        "spec": "%s=ill-formed" % op, "std": "ill-formed",
@@ -807,8 +968,8 @@ def run(ctx, replay=None):
             continue
         I, M = parse_items(it.impl), parse_items(it.model)
         n_items += len(I)
-        n_model += sum(1 for k in I if k in M)
-        if all(lib.eq(I[k], M[k]) for k in I if k in M):
+        n_model += sum(1 for k in I if base_key(k) in M)
+        if all(lib.eq(I[k], M[base_key(k)]) for k in I if base_key(k) in M):
             agree += 1
     nontriv = {it.case.lines[0] for it in items if not it.skip and it.call is not None and nontrivial(it.case)}
     rnd = random.Random(ctx.seed)
@@ -843,6 +1004,8 @@ def run(ctx, replay=None):
         "illformedness_probe_candidates": len(cand),
         "compile_wall_s": round(compile_s, 1),
         "known_findings_replayed": dict(ctx.known_hits),
+        "generated": gen_info,
+        "clang_leg": clang_info,
         "source_hashes": lib.source_hashes(SOURCES),
         "notes": ctx.notes,
         "unproved_observed": UNPROVED_OBSERVED,
